@@ -248,6 +248,7 @@ func describePeers(c c08TLSCase) string {
 }
 
 func c08TLSRun(t *testing.T, c c08TLSCase) (sig string, err error) {
+	defer evid.DeadlockWatch("C08", "TestC08TLS", c, "kmip-go/kmipserver")()
 	perr := safely(func() error {
 		synctest.Test(t, func(st *testing.T) { sig, err = c08TLSBubble(c) })
 		return nil
